@@ -19,84 +19,8 @@ import (
 	"verifharness/lib/dbh"
 	"verifharness/lib/vlib"
 	"verifharness/lib/vstor"
+	"verifharness/lib/wl"
 )
-
-// Batch is one issued write (every write carries a unique marker key so its presence can be read off).
-type Batch struct {
-	ID       int       `json:"id"`
-	Recs     []dbh.Rec `json:"recs"`
-	Sync     bool      `json:"sync"`
-	Txn      bool      `json:"txn,omitempty"`
-	StartIdx int       `json:"start_idx"`
-	AckIdx   int       `json:"ack_idx"`
-	OK       bool      `json:"ok"`
-}
-
-// Step of a workload (replayable).
-type Step struct {
-	Kind  string    `json:"kind"` // write | txn | compact | reopen | idle
-	Recs  []dbh.Rec `json:"recs,omitempty"`
-	Sync  bool      `json:"sync,omitempty"`
-	Parts int       `json:"parts,omitempty"` // txn: number of Write calls the records are split into
-}
-
-type Workload struct {
-	Seed  uint64  `json:"seed"`
-	Cfg   dbh.Cfg `json:"cfg"`
-	Steps []Step  `json:"steps"`
-}
-
-func marker(id int) []byte { return []byte(fmt.Sprintf("\x01m%06d", id)) }
-
-func genWorkload(r *vlib.RNG, nsteps int) *Workload {
-	cfg := dbh.RandomCfg(r)
-	cfg.MaxManifest = int64([]int{0, 1, 512, 512}[r.Intn(4)])
-	cfg.NoSync = false // the NoSync option waives durability altogether; the property is about the sync write option
-	if cfg.WriteBuffer > 8192 {
-		cfg.WriteBuffer = []int{1024, 2048, 4096}[r.Intn(3)]
-	}
-	pool := dbh.GenPool(r, r.Range(6, 40), false)
-	w := &Workload{Cfg: cfg}
-	var tag uint64
-	mkrecs := func(n int, big bool) []dbh.Rec {
-		var recs []dbh.Rec
-		for i := 0; i < n; i++ {
-			k := pool[r.Intn(len(pool))]
-			tag++
-			if r.Chance(1, 5) {
-				recs = append(recs, dbh.Rec{Del: true, K: k})
-			} else {
-				v := dbh.GenValue(r, cfg, k, tag)
-				if len(v) > 3000 {
-					v = v[:3000]
-				}
-				if big && len(v) < 200 {
-					v = append(v, bytes.Repeat([]byte{'q'}, 300)...)
-				}
-				recs = append(recs, dbh.Rec{K: k, V: v})
-			}
-		}
-		return recs
-	}
-	for len(w.Steps) < nsteps {
-		switch r.Pick(50, 6, 4, 3, 3, 2) {
-		case 0:
-			w.Steps = append(w.Steps, Step{Kind: "write", Recs: mkrecs(r.Range(1, 4), false), Sync: r.Chance(1, 2)})
-		case 1: // oversized batch
-			n := cfg.WriteBuffer/300 + 2
-			w.Steps = append(w.Steps, Step{Kind: "write", Recs: mkrecs(n, true), Sync: r.Chance(1, 2)})
-		case 2:
-			w.Steps = append(w.Steps, Step{Kind: "txn", Recs: mkrecs(r.Range(1, 30), r.Chance(1, 2)), Parts: r.Range(1, 3)})
-		case 3:
-			w.Steps = append(w.Steps, Step{Kind: "compact"})
-		case 4:
-			w.Steps = append(w.Steps, Step{Kind: "reopen"})
-		case 5:
-			w.Steps = append(w.Steps, Step{Kind: "idle"})
-		}
-	}
-	return w
-}
 
 type editEv struct {
 	idx     int // storage op count when the commit hook ran (manifest written and synced)
@@ -108,7 +32,7 @@ type editEv struct {
 
 type runOut struct {
 	stor    *vstor.Stor
-	batches []*Batch
+	batches []*wl.Batch
 	openIdx int // op count when the first Open returned
 	err     string
 	mu      sync.Mutex
@@ -136,19 +60,7 @@ func installHook() {
 	})
 }
 
-func mkBatch(recs []dbh.Rec) *leveldb.Batch {
-	b := new(leveldb.Batch)
-	for _, rec := range recs {
-		if rec.Del {
-			b.Delete(rec.K)
-		} else {
-			b.Put(rec.K, rec.V)
-		}
-	}
-	return b
-}
-
-func runWorkload(w *Workload) (out *runOut) {
+func runWorkload(w *wl.Workload) (out *runOut) {
 	out = &runOut{}
 	stor := vstor.New(true)
 	out.stor = stor
@@ -172,11 +84,11 @@ func runWorkload(w *Workload) (out *runOut) {
 	for _, st := range w.Steps {
 		switch st.Kind {
 		case "write":
-			b := &Batch{ID: id, Sync: st.Sync && syncOK}
+			b := &wl.Batch{ID: id, Sync: st.Sync && syncOK}
 			id++
-			b.Recs = append([]dbh.Rec{{K: marker(b.ID), V: []byte{1}}}, st.Recs...)
+			b.Recs = append([]dbh.Rec{{K: wl.Marker(b.ID), V: []byte{1}}}, st.Recs...)
 			b.StartIdx = stor.OpCount()
-			err := db.Write(mkBatch(b.Recs), &opt.WriteOptions{Sync: st.Sync})
+			err := db.Write(wl.MkBatch(b.Recs), &opt.WriteOptions{Sync: st.Sync})
 			b.AckIdx = stor.OpCount()
 			b.OK = err == nil
 			out.batches = append(out.batches, b)
@@ -185,9 +97,9 @@ func runWorkload(w *Workload) (out *runOut) {
 				return
 			}
 		case "txn":
-			b := &Batch{ID: id, Sync: syncOK, Txn: true}
+			b := &wl.Batch{ID: id, Sync: syncOK, Txn: true}
 			id++
-			b.Recs = append([]dbh.Rec{{K: marker(b.ID), V: []byte{1}}}, st.Recs...)
+			b.Recs = append([]dbh.Rec{{K: wl.Marker(b.ID), V: []byte{1}}}, st.Recs...)
 			b.StartIdx = stor.OpCount()
 			tr, err := db.OpenTransaction()
 			if err != nil {
@@ -204,7 +116,7 @@ func runWorkload(w *Workload) (out *runOut) {
 				if j > len(b.Recs) {
 					j = len(b.Recs)
 				}
-				if err := tr.Write(mkBatch(b.Recs[i:j]), nil); err != nil {
+				if err := tr.Write(wl.MkBatch(b.Recs[i:j]), nil); err != nil {
 					out.err = "Transaction.Write: " + err.Error()
 					return
 				}
@@ -242,18 +154,8 @@ func runWorkload(w *Workload) (out *runOut) {
 	return
 }
 
-func scan(db *leveldb.DB) (map[string][]byte, error) {
-	m := map[string][]byte{}
-	it := db.NewIterator(nil, nil)
-	defer it.Release()
-	for it.Next() {
-		m[string(it.Key())] = append([]byte{}, it.Value()...)
-	}
-	return m, it.Error()
-}
-
 // checkImage reopens one crash image and evaluates the property; returns "" when it holds.
-func checkImage(w *Workload, batches []*Batch, img *vstor.Stor, crashIdx int, usable bool) (msg string) {
+func checkImage(w *wl.Workload, batches []*wl.Batch, img *vstor.Stor, crashIdx int, usable bool) (msg string) {
 	defer func() {
 		if x := recover(); x != nil {
 			msg = fmt.Sprintf("panic while reopening the crash image: %v", x)
@@ -273,14 +175,14 @@ func checkImage(w *Workload, batches []*Batch, img *vstor.Stor, crashIdx int, us
 		return "Open of the crash image fails: " + err.Error()
 	}
 	defer db.Close()
-	got, err := scan(db)
+	got, err := wl.Scan(db)
 	if err != nil {
 		return "scan of the recovered DB fails: " + err.Error()
 	}
 	delete(got, "\x01usable") // written by an earlier usability probe on the same image (nested crashes)
 	exp := map[string][]byte{}
 	for _, b := range batches {
-		_, keep := got[string(marker(b.ID))]
+		_, keep := got[string(wl.Marker(b.ID))]
 		if b.StartIdx > crashIdx && keep {
 			return fmt.Sprintf("batch %d was issued after the crash point yet its marker is present", b.ID)
 		}
@@ -329,7 +231,7 @@ func checkImage(w *Workload, batches []*Batch, img *vstor.Stor, crashIdx int, us
 		if v, err := db.Get(k, nil); err != nil || string(v) != "yes" {
 			return fmt.Sprintf("Get after Put on the recovered DB: %q %v", v, err)
 		}
-		got2, err := scan(db)
+		got2, err := wl.Scan(db)
 		if err != nil {
 			return "scan after use fails: " + err.Error()
 		}
@@ -492,26 +394,26 @@ func kPointOK(out *runOut, c int) bool {
 }
 
 // keptOf reopens an image and returns the issue indexes of the batches whose marker is present.
-func keptOf(w *Workload, batches []*Batch, img *vstor.Stor) ([]int, error) {
+func keptOf(w *wl.Workload, batches []*wl.Batch, img *vstor.Stor) ([]int, error) {
 	db, err := leveldb.Open(img, w.Cfg.Options())
 	if err != nil {
 		return nil, err
 	}
 	defer db.Close()
-	got, err := scan(db)
+	got, err := wl.Scan(db)
 	if err != nil {
 		return nil, err
 	}
 	var kept []int
 	for i, b := range batches {
-		if _, ok := got[string(marker(b.ID))]; ok {
+		if _, ok := got[string(wl.Marker(b.ID))]; ok {
 			kept = append(kept, i)
 		}
 	}
 	return kept, nil
 }
 
-func kCases(w *Workload, out *runOut, r *vlib.RNG, max int) []string {
+func kCases(w *wl.Workload, out *runOut, r *vlib.RNG, max int) []string {
 	evs := kEvents(out)
 	if evs == nil {
 		return nil
@@ -620,13 +522,13 @@ func kCases(w *Workload, out *runOut, r *vlib.RNG, max int) []string {
 }
 
 type caseRef struct {
-	W        *Workload `json:"workload"`
-	CrashIdx int       `json:"crash_idx"`
-	Policy   int       `json:"policy"`
-	Vanish   bool      `json:"unsynced_files_vanish"`
-	Nested   int       `json:"nested_crash_idx"` // -1 = none
-	PolSeed  uint64    `json:"policy_seed"`
-	What     string    `json:"what,omitempty"`
+	W        *wl.Workload `json:"workload"`
+	CrashIdx int          `json:"crash_idx"`
+	Policy   int          `json:"policy"`
+	Vanish   bool         `json:"unsynced_files_vanish"`
+	Nested   int          `json:"nested_crash_idx"` // -1 = none
+	PolSeed  uint64       `json:"policy_seed"`
+	What     string       `json:"what,omitempty"`
 }
 
 func rnd(seed uint64) func() uint64 {
@@ -696,7 +598,7 @@ func main() {
 	}
 	root := vlib.NewRNG(a.Seed)
 	type job struct {
-		w    *Workload
+		w    *wl.Workload
 		out  *runOut
 		i    int
 		pol  vstor.TailPolicy
@@ -757,7 +659,7 @@ func main() {
 	}
 	for wi := 0; wi < nwork; wi++ {
 		r := root.Fork()
-		w := genWorkload(r, r.Range(nsteps/2, nsteps))
+		w := wl.GenWorkload(r, r.Range(nsteps/2, nsteps))
 		w.Seed = a.Seed*1000 + uint64(wi)
 		out := runWorkload(w)
 		if out.err != "" {
@@ -813,9 +715,9 @@ func main() {
 	var kcases []string
 	for wi := 0; wi < nk; wi++ {
 		r := root.Fork()
-		w := genWorkload(r, r.Range(30, 90))
+		w := wl.GenWorkload(r, r.Range(30, 90))
 		w.Cfg.MaxManifest = 0
-		var steps []Step
+		var steps []wl.Step
 		for _, st := range w.Steps {
 			if st.Kind != "reopen" {
 				steps = append(steps, st)
